@@ -15,7 +15,18 @@ def run(ctx):
     ctx.assumptions += ["the six type parameters of the harness stand for 'all T' on the implementation side; the theorem quantifies over every index type"]
     c.prove(ctx, ["Sylvia.Thm.C20"], THEOREMS)
     rng = ctx.rng
-    exe = c.build_rt()
+    try:
+        exe = c.build_rt(own="remote")
+    except c.BuildError as e:
+        # the harness module for this property is a set of valid programs: handles parameterised by a contract, a generic contract,
+        # `dyn Interface<..>`, `str`, `()`, each serialised, deserialised and asked for its schema. If it stops compiling, such a
+        # program is a concrete failing input.
+        errs = [l for l in e.out.split("\n") if l.startswith("error")][:6]
+        ctx.violation("valid-program-rejected", "programs that store / encode / describe a Remote<T> (T a contract, a generic contract, dyn Interface<..>, str, ()) "
+                      "no longer compile: " + " | ".join(errs)[:600],
+                      {"how": "cargo build of harness/rt (feature remote) against the tree", "compiler_output": e.out[-4000:]})
+        ctx.add_stream("L3-remote", 0, 0, samples=["(harness did not build)"])
+        return
     addrs = ["", "a", "cosmwasm1jpev2csrppg792t22rn8z8uew8h3sjcpglcd0qv9g8gj8ky922tscp8avs", "with space", 'quo"te', "back\\slash",
              "new\nline", "tab\t", "\u0001\u001f", "üñí€", "𝄞", "a/b", "{\"addr\":\"x\"}", "null", "\u007f", " "]
     for _ in range(ctx.size(300, 20000)):
